@@ -70,7 +70,7 @@ type call struct {
 	mayFalse  bool           // cached mode: NFS4ERR_SEQ_FALSE_RETRY is acceptable
 
 	refusedBefore bool  // error mode, NFS4ERR_TOO_MANY_OPS: the same request was refused on this slot and sequence ID before
-	afterRefused  *call // exec mode: the request that was refused with NFS4ERR_TOO_MANY_OPS on this slot and sequence ID before
+	afterRefused  *call // exec and error mode: the request that was refused with NFS4ERR_TOO_MANY_OPS on this slot and sequence ID before
 	everParked    bool  // written under world.mu
 
 	// Written by the goroutines of the call, under world.mu.
@@ -450,10 +450,8 @@ func (w *world) mustHaveReturned(c *call) {
 	where := ""
 	if c.sess != nil {
 		where = fmt.Sprintf(" on %s slot %d sequence %d", c.sess, c.slot, c.seq)
-		if int(c.slot) < len(c.sess.slots) {
-			if r := c.sess.slots[c.slot].refused; r != nil && c.mode != "wait" {
-				where += fmt.Sprintf(" (the previous request on that slot and sequence ID, #%d, was refused with NFS4ERR_TOO_MANY_OPS: a refused request does not consume the sequence ID and must not leave the slot busy)", r.id)
-			}
+		if r := c.afterRefused; r != nil {
+			where += fmt.Sprintf(" (the previous request on that slot and sequence ID, #%d, was refused with NFS4ERR_TOO_MANY_OPS: a refused request does not consume the sequence ID and must not leave the slot busy)", r.id)
 		}
 	}
 	w.failf("C14/C19 (liveness): request #%d %q (%s%s; the model expects: %s) never returns: it is neither parked by the harness nor a duplicate of a request that is still being processed, and every goroutine of the case is idle, so it waits for something that nothing is ever going to provide (a slot or lock left behind by an earlier request)", c.id, c.desc, c.class, where, c.mode)
